@@ -3,7 +3,7 @@ from props_common import COMMON_TRUSTED
 CONFIG = {
     "areas": ["ident", "b64", "limits", "vertable"],
     "lean": ["VProps.C17"],
-    "sources": ["VProps/C17.lean", "VProofs/Ident.lean", "VProofs/IdentIP.lean", "VProofs/B64.lean", "VProofs/Limits.lean",
+    "sources": ["VProps/C17.lean", "VProofs/Ident.lean", "VProofs/IdentIP.lean", "VProofs/IdentIP6.lean", "VProofs/IdentIP6Loop.lean", "VProofs/IdentIP6Top.lean", "VProofs/B64.lean", "VProofs/Limits.lean",
                 "VModel/Ident.lean", "VModel/B64.lean", "VModel/Limits.lean", "VModel/Vertable.lean"],
     "theorems": [
         "V.C17.userID_parts_concat",
@@ -16,6 +16,9 @@ CONFIG = {
         "V.C17.userID_accept_iff_grammar_partial",
         "V.C17.roomID_accept_iff_grammar_partial",
         "V.C17.parseIPv4_accept_iff_dottedQuad",
+        "V.C17.parseIPv6_accept_iff_rfc4291",
+        "V.C17.parseIP_accept_iff_literal",
+        "V.C17.serverName_accept_iff_grammar_of_ParseIPAgrees",
         "V.C17.serverName_accept_iff_grammar",
         "V.C17.userID_accept_iff_grammar",
         "V.C17.roomID_accept_iff_grammar",
@@ -47,7 +50,7 @@ CONFIG = {
             "(version, probe). An op is non-trivial when its argument is not a pool constant shorter than 4 bytes; distinct by op line",
     "nontrivial": lambda op, impl: len(op) > 24,
     "trusted": COMMON_TRUSTED + [
-        "Go std lib modelled, not verified: net.ParseIP (VModel.Ident.parseIP; hypothesis ParseIPAgrees of the full accept_iff_grammar theorems; "
+        "Go std lib modelled, not verified: net.ParseIP (VModel.Ident.parseIP: proved equal to the RFC 4291 / dotted-quad recogniser for all byte strings, V.C17.parseIP_accept_iff_literal; that it models Go's netip.ParseAddr is "
         "tied by ident.parseip / ident.isip ops), strconv.ParseUint(s,10,16), encoding/base64 Raw{Std,URL}Encoding, encoding/json string "
         "(un)quoting for Base64Bytes.(Un)MarshalJSON, regexp (two anchored character-class patterns, regenerated source text compared)",
         "limits: JSON decoding, content hashing and EventBuilder marshalling are outside the model; the harness submits canonical, "
